@@ -68,8 +68,27 @@ func main() {
 	for _, f := range files {
 		instrument(root, f)
 	}
+	sqliteSeam(root)
 	b, _ := json.Marshal(stats)
 	fmt.Println(string(b))
+}
+
+// R7: the name of the database/sql driver murex opens its cache database with becomes a variable, so that a
+// harness can register a wrapper around the same driver (statement-level scheduling points, see the C30
+// harness) and have murex's own dbConnect use it. Default unchanged.
+func sqliteSeam(root string) {
+	p := filepath.Join(root, "utils/sqlite3/lib_go.go")
+	b, err := os.ReadFile(p)
+	if err != nil {
+		return
+	}
+	s := string(b)
+	if !strings.Contains(s, "const driverName = \"sqlite\"") {
+		return
+	}
+	s = strings.Replace(s, "const driverName = \"sqlite\"", "var driverName = \"sqlite\"\n\n// SimSetDriverName is added by mxinstr (R7)\nfunc SimSetDriverName(s string) { driverName = s }", 1)
+	os.WriteFile(p, []byte(s), 0644)
+	stats["sqlite-driver-seam"]++
 }
 
 func site(fset *token.FileSet, root string, pos token.Pos) *ast.BasicLit {
